@@ -15,7 +15,7 @@
    Both assumptions are exercised by the correspondence (the harness decodes the real payload
    bytes and the comparison is made on the decoded value).
 
-   The record [quirks] switches on the six defects this model was first written against and that
+   The record [quirks] switches on the seven defects this model was first written against and that
    were repaired in /repo; [fixed] (all off) is the behaviour of the code, [legacy] the behaviour
    before the repairs (kept for the witnesses in proofs/SpansProofs.v and for diagnosing a
    regression in the check). *)
@@ -30,12 +30,13 @@ Record quirks := {
   q_nd_stateful : bool;      (* NDJSON framing: no per-line reset, payload never set *)
   q_peer_first : bool;       (* parseOTLP: peer.service before service.name, service.name always rewritten *)
   q_parent_payload : bool;   (* parseZipkinJSON: parent only from a 16-digit "parentId" of the payload, parent_id column ignored *)
-  q_time_wrap : bool         (* zipkin decodeSpan: microseconds * 1000 wrapped around int64 silently *)
+  q_time_wrap : bool;        (* zipkin decodeSpan: microseconds * 1000 wrapped around int64 silently *)
+  q_nil_resource : bool      (* OTLPDecoder.Decode: res.Resource.Attributes on a ResourceSpans without the resource message = nil dereference, 500 *)
 }.
 Definition fixed : quirks :=
-  {| q_list_drop := false; q_remote_inverted := false; q_nd_stateful := false; q_peer_first := false; q_parent_payload := false; q_time_wrap := false |}.
+  {| q_list_drop := false; q_remote_inverted := false; q_nd_stateful := false; q_peer_first := false; q_parent_payload := false; q_time_wrap := false; q_nil_resource := false |}.
 Definition legacy : quirks :=
-  {| q_list_drop := true; q_remote_inverted := true; q_nd_stateful := true; q_peer_first := true; q_parent_payload := true; q_time_wrap := true |}.
+  {| q_list_drop := true; q_remote_inverted := true; q_nd_stateful := true; q_peer_first := true; q_parent_payload := true; q_time_wrap := true; q_nil_resource := true |}.
 
 (* ------------------------------------------------------------------ numbers *)
 Definition two63 : Z := 9223372036854775808.
@@ -225,10 +226,13 @@ Definition otlp_span (q : quirks) (ra : attrs) (s : ospan) : option span_rows :=
               (o_parent s) (o_name s) svc (POtlp (with_attrs s a)) m'
   end.
 
+(* res.GetResource().GetAttributes(): a ResourceSpans entry whose optional resource message is absent on the wire is a
+   resource without attributes (until the repair: res.Resource.Attributes on the nil Resource, the request failed) *)
+Definition res_attrs (r : ores) : attrs := if r_has_res r then r_attrs r else [].
 Definition otlp_res (q : quirks) (r : ores) : option (list span_rows) :=
   let spans := List.concat (r_scopes r) in
-  if r_has_res r then mapM (otlp_span q (r_attrs r)) spans
-  else match spans with [] => Some [] | _ => None end.      (* res.Resource.Attributes on a nil Resource *)
+  if r_has_res r || negb (q_nil_resource q) then mapM (otlp_span q (res_attrs r)) spans
+  else match spans with [] => Some [] | _ => None end.      (* legacy: nil dereference at the group's first span *)
 
 Definition otlp_decode (q : quirks) (b : list ores) : option (list span_rows) :=
   option_map (@List.concat _) (mapM (otlp_res q) b).
@@ -532,7 +536,7 @@ Definition otlp_pushed (ra : attrs) (s : ospan) : option pushed :=
   end.
 
 Definition batch_spans (b : list ores) : list (attrs * ospan) :=
-  flat_map (fun r => map (fun s => (r_attrs r, s)) (List.concat (r_scopes r))) b.
+  flat_map (fun r => map (fun s => (res_attrs r, s)) (List.concat (r_scopes r))) b.
 
 (* Zipkin: the fields of one span object, each taken from its LAST occurrence (the write path's reading) *)
 Fixpoint jget_last (k : string) (fs : list (string * jv)) : option jv :=
@@ -620,7 +624,7 @@ Definition zipkin_pushed (e : jv) : option pushed :=
 
 Definition pushed_of (i : input) : option (list pushed) :=
   match i with
-  | InOtlp b => if forallb r_has_res b then mapM (fun x => otlp_pushed (fst x) (snd x)) (batch_spans b) else None
+  | InOtlp b => mapM (fun x => otlp_pushed (fst x) (snd x)) (batch_spans b)
   | InZipkin _ es => if forallb z_wellformed es then mapM zipkin_pushed es else None
   end.
 
@@ -795,11 +799,11 @@ Definition spec_violations (cs : list case) : list Z := map c_id (filter spec_vi
 (* diagnosis of a mismatch: which single legacy defect, switched back on, explains the observation *)
 Definition with_quirk (n : nat) : quirks :=
   {| q_list_drop := Nat.eqb n 0; q_remote_inverted := Nat.eqb n 1; q_nd_stateful := Nat.eqb n 2; q_peer_first := Nat.eqb n 3;
-     q_parent_payload := Nat.eqb n 4; q_time_wrap := Nat.eqb n 5 |}.
+     q_parent_payload := Nat.eqb n 4; q_time_wrap := Nat.eqb n 5; q_nil_resource := Nat.eqb n 6 |}.
 Definition explains (n : nat) (c : case) : bool := write_matches (with_quirk n) c && read_matches (with_quirk n) c.
 Definition regressions (cs : list case) : list (Z * Z) :=
   flat_map (fun c => if model_mismatch c
-                     then map (fun n => (c_id c, Z.of_nat n)) (filter (fun n => explains n c) [0; 1; 2; 3; 4; 5]%nat)
+                     then map (fun n => (c_id c, Z.of_nat n)) (filter (fun n => explains n c) [0; 1; 2; 3; 4; 5; 6]%nat)
                      else []) cs.
 
 (* run-length form used by generated case files: consecutive tag rows with the same ids and times *)
